@@ -217,10 +217,113 @@ theorem md_mdErrorOK (cfg : Cfg) (hc : cfg.metadataAtomic = true) (fuel : Nat) (
         rw [this]
         rfl
 
+/-! ### add_trial / request -/
+
+theorem findTrial_fresh (st : Study) (t : Trial) (hid : t.id = st.maxTrialId + 1) :
+    st.findTrial t.id = none ∧ (st.addTrial t).findTrial t.id = some t := by
+  have hnone : st.trials.find? (fun x => x.id == t.id) = none := by
+    rw [List.find?_eq_none]
+    intro x hx
+    have := le_maxId hx
+    rw [← maxTrialId_eq] at this
+    simp only [beq_iff_eq]
+    omega
+  refine ⟨hnone, ?_⟩
+  unfold Study.findTrial Study.addTrial
+  simp only [List.find?_append, hnone, Option.none_or]
+  simp
+
+/-- the trial `CreateTrial` stores for a request trial `p` -/
+def created (st : Study) (p : Trial) : Trial :=
+  { p with id := st.maxTrialId + 1, state := if p.state == .succeeded then .succeeded else .requested, client := "" }
+
+theorem createTrial_step (cfg : Cfg) {db : DB} {h : Handle} {st : Study} (hs : findStudy db h.owner h.sid = some st)
+    (hopen : st.immutable = false) (p : Trial) :
+    step cfg db (.createTrial h.owner h.sid p) = (.trial (created st p), putStudy db (st.addTrial (created st p))) := by
+  simp only [step]
+  rw [onStudy_open _ hs hopen]
+  rfl
+
+theorem added_ok {db db0 : DB} {h : Handle} {st : Study} (hs0 : findStudy db0 h.owner h.sid = some st)
+    (hs : findStudy db h.owner h.sid = some st) (hopen : st.immutable = false) (p : Trial) (completed : Bool)
+    (hstate : (created st p).state = (if completed then TState.succeeded else TState.requested)) :
+    addedOK db0 (putStudy db (st.addTrial (created st p))) h p.params completed (.handle (created st p).id) = true := by
+  have hf := findTrial_fresh st (created st p) rfl
+  have ho : openStudy db0 h = true := by unfold openStudy; rw [hs0]; simp [hopen]
+  unfold addedOK
+  rw [ho]
+  simp only [Bool.not_true, Bool.false_or]
+  rw [lookup_putStudy (st' := st.addTrial (created st p)) hs ⟨(handle_key hs).1, (handle_key hs).2⟩, hf.2,
+    lookup_of_find hs0, hf.1]
+  have hp : (created st p).params = p.params := rfl
+  simp [hstate, hp]
+
+theorem request_addedOK (cfg : Cfg) (fuel : Nat) (h : Handle) (params : Nat) (md : MD) (db : DB) :
+    addedOK db (clientExec cfg fuel h (.request params md) db).db h params false
+      (clientExec cfg fuel h (.request params md) db).obs = true := by
+  cases ho : openStudy db h with
+  | false => unfold addedOK; rw [ho]; rfl
+  | true =>
+    obtain ⟨st, hs, hopen⟩ := openStudy_spec ho
+    have hstep := createTrial_step cfg hs hopen (protoTrial params .requested none md)
+    have hdb : (clientExec cfg fuel h (.request params md) db).db =
+        putStudy db (st.addTrial (created st (protoTrial params .requested none md))) := by
+      show (step cfg db (.createTrial h.owner h.sid (protoTrial params .requested none md))).2 = _
+      rw [hstep]
+    have hobs : (clientExec cfg fuel h (.request params md) db).obs =
+        .handle (created st (protoTrial params .requested none md)).id := by
+      simp only [clientExec, rpc1, hstep]
+      rfl
+    rw [hdb, hobs]
+    exact added_ok hs hs hopen (protoTrial params .requested none md) false rfl
+
+theorem addTrial_addedOK (cfg : Cfg) (fuel : Nat) (h : Handle) (params : Nat) (final : Option Meas) (db : DB) :
+    addedOK db (clientExec cfg fuel h (.addTrial params final true) db).db h params final.isSome
+      (clientExec cfg fuel h (.addTrial params final true) db).obs = true := by
+  cases ho : openStudy db h with
+  | false => unfold addedOK; rw [ho]; rfl
+  | true =>
+    obtain ⟨st, hs, hopen⟩ := openStudy_spec ho
+    have hget : step cfg db (.getStudy h.owner h.sid) = (.study st, putStudy db st) := by
+      simp only [step]; rw [onStudy_any _ hs]
+    have hs1 : findStudy (putStudy db st) h.owner h.sid = some st :=
+      findStudy_putStudy hs ⟨(handle_key hs).1, (handle_key hs).2⟩
+    let p := protoTrial params (addedState final) final []
+    have hstep := createTrial_step cfg hs1 hopen p
+    have hexec : clientExec cfg fuel h (.addTrial params final true) db =
+        { obs := .handle (created st p).id,
+          reqs := [Req.getStudy h.owner h.sid, Req.createTrial h.owner h.sid p],
+          db := putStudy (putStudy db st) (st.addTrial (created st p)) } := by
+      simp only [clientExec, hget, raised, Bool.not_true, Bool.false_eq_true, if_false]
+      rw [hstep]
+      rfl
+    rw [hexec]
+    apply added_ok hs hs1 hopen p final.isSome
+    cases final <;> rfl
+
+theorem addTrial_outOfSpaceOK (cfg : Cfg) (fuel : Nat) (h : Handle) (params : Nat) (final : Option Meas) (db : DB) :
+    outOfSpaceOK db h (clientExec cfg fuel h (.addTrial params final false) db).obs = true := by
+  unfold outOfSpaceOK
+  cases hs : findStudy db h.owner h.sid with
+  | none => rfl
+  | some st =>
+    have hget : step cfg db (.getStudy h.owner h.sid) = (.study st, putStudy db st) := by
+      simp only [step]; rw [onStudy_any _ hs]
+    have : (clientExec cfg fuel h (.addTrial params final false) db).obs = .exc .valueError := by
+      simp only [clientExec, hget, raised]
+      rfl
+    rw [this]
+    rfl
+
 /-- **the documented effect of the single calls** (the predicate judged on real runs) -/
 theorem clientExec_effectsOK (cfg : Cfg) (hc : cfg.metadataAtomic = true) (fuel : Nat) (h : Handle) (c : Call) (db : DB) :
     effectsOK db (clientExec cfg fuel h c db).db h c (clientExec cfg fuel h c db).obs = true := by
   cases c with
+  | addTrial params final inSpace =>
+    cases inSpace with
+    | false => rfl
+    | true => exact addTrial_addedOK cfg fuel h params final db
+  | request params md => exact request_addedOK cfg fuel h params md db
   | complete id m reason =>
     cases m with
     | none => rfl
